@@ -410,6 +410,9 @@ TEMPLATES = [
     '![costs $5 or $6 {p}](/u)', '![a $x_1$ b](u "t")', '![x [[a|b]] y](u)', '[a $x$ [[w]] b](u)', '# $a$ [[b|c]] {p}', '| $a$ | [[b]] |\n|---|---|\n| ![$q$](u) | x |',
     '![~~s~~ `c` <b> \\* &amp; <http://x.y>](u)', '![![inner $m$](v)](u)',
     # raw inline HTML inside an image description ends up in the alt attribute
+    # line endings inside an image description: hard breaks (both spellings) and soft breaks have no tag form in an attribute
+    '![a  \nb {p}](u)', '![a\\\nb](u "{p}")', '![a\nb *c  \nd* {p}](u)', '![x [y\\\nz](v) {p}](u)', '[![a  \nb](s)](u "{p}")', '![a  \nb][r]\n\n[r]: u "{p}"',
+    '[t](u "one\ntwo {p}")', '![`a\nb` {p}](u)',
     '![a <b x="{q}"> c](u)', '![<i class="big"> {p}](u "t")', '![a <!-- {q} --> b](u)', '[![x <b {q}> y](s)](u "{p}")', '![a <?{q}?> </b>][r]\n\n[r]: u',
 ]
 
